@@ -357,7 +357,11 @@ v('c18-keys-mutated', 'C18', M, "        self.associations.append(ass)\n", "    
 v('c18-attributes-aliased', 'C18', M, "        metaclass = MetaClass(kind, self)\n        for name, ty in attributes:\n            metaclass.append_attribute(name, ty)", "        metaclass = MetaClass(kind, self)\n        metaclass.attributes = attributes",
   'fire', 'C18-', 'attribute list of the statement shared with the metaclass')
 v('c18-loader-caches', 'C18', LO, "        m = xtuml.MetaModel(id_generator)\n        \n        self.populate(m)", "        m = xtuml.MetaModel(id_generator)\n        self.last = m\n        self.populate(m)", 'fire', 'C18-FRESH', 'loader remembers the metamodel')
-v('c18-class-attr', 'C18', M, "class MetaClass(object):\n    '''\n    A metaclass contain metadata", "class MetaClass(object):\n    registry = {}\n    '''\n    A metaclass contain metadata", 'fire', 'C18-FRESH', 'mutable class attribute')
+VARIANTS.append(dict(id='c18-class-attr', prop='C18', expect='fire', rule='C18-FRESH', what='mutable class attribute written by every metaclass',
+                     edits=[(M, "class MetaClass(object):\n    \'\'\'\n    A metaclass contain metadata", "class MetaClass(object):\n    registry = {}\n    \'\'\'\n    A metaclass contain metadata"),
+                            (M, "        self.metamodel = metamodel\n        self.kind = kind\n        self.attributes = list()", "        self.metamodel = metamodel\n        self.kind = kind\n        self.registry[kind] = self\n        self.attributes = list()")]))
+VARIANTS.append(dict(id='c18-class-table', prop='C18', expect='silent', rule='', what='read-only class-level lookup table',
+                     edits=[(M, "class MetaClass(object):\n    \'\'\'\n    A metaclass contain metadata", "class MetaClass(object):\n    _names = {'a': 1}\n    \'\'\'\n    A metaclass contain metadata")]))
 v('c18-stmt-write', 'C18', LO, "            if stmt.names:\n                fn = self._populate_instance_with_named_arguments", "            if stmt.names:\n                stmt.names.sort()\n                fn = self._populate_instance_with_named_arguments", 'fire', 'C18-STMT-RO',
   'names of the statement sorted in place')
 v('c18-silent-tuple', 'C18', M, "        metaclass.indices[name] = tuple(named_attributes)", "        metaclass.indices[name] = tuple(list(named_attributes))", 'silent', '', 'equivalent copy')
